@@ -306,6 +306,25 @@ impl ZarrAsyncChainStorage {
     }
 
     /// Store a parameter value, spawning async write when buffer is full
+    /// Number of events recorded so far per event dimension.
+    ///
+    /// Not every statistic of an event dimension is populated on every event (some are only
+    /// stored on request, some never), so the count is the largest one over the statistics
+    /// of that dimension, not the count of an arbitrary one of them.
+    fn event_counts(&self) -> HashMap<String, u64> {
+        let mut counts: HashMap<String, u64> = HashMap::new();
+        for (field, dim) in &self.event_dim_of_stat {
+            let n = self
+                .stats_buffers
+                .get(field.as_str())
+                .map(|b| b.total_pushed())
+                .unwrap_or(0);
+            let entry = counts.entry(dim.clone()).or_insert(0);
+            *entry = (*entry).max(n);
+        }
+        counts
+    }
+
     fn push_param(&mut self, name: &str, value: Value, is_warmup: bool) -> Result<()> {
         if ["draw", "chain"].contains(&name) {
             return Ok(());
@@ -411,17 +430,7 @@ impl ChainStorage for ZarrAsyncChainStorage {
     ) -> Result<()> {
         let is_first_draw = self.last_sample_was_warmup && !info.tuning;
         if is_first_draw {
-            {
-                let mut seen = std::collections::HashSet::new();
-                for (field, dim) in &self.event_dim_of_stat {
-                    if seen.insert(dim.as_str()) {
-                        if let Some(buf) = self.stats_buffers.get(field.as_str()) {
-                            self.warmup_event_counts
-                                .insert(dim.clone(), buf.total_pushed());
-                        }
-                    }
-                }
-            }
+            self.warmup_event_counts = self.event_counts();
             for (key, buffer) in self.draw_buffers.iter_mut() {
                 if let Some(chunk) = buffer.reset() {
                     let array = self.arrays.warmup_draw_arrays[key].clone();
@@ -473,15 +482,7 @@ impl ChainStorage for ZarrAsyncChainStorage {
     /// Flush remaining samples and finalize storage, joining all pending writes
     fn finalize(self) -> Result<Self::Finalized> {
         // Collect sample counts before consuming stats_buffers
-        let mut seen = std::collections::HashSet::new();
-        let mut sample_counts: HashMap<String, u64> = HashMap::new();
-        for (field, dim) in &self.event_dim_of_stat {
-            if seen.insert(dim.as_str()) {
-                if let Some(buf) = self.stats_buffers.get(field.as_str()) {
-                    sample_counts.insert(dim.clone(), buf.total_pushed());
-                }
-            }
-        }
+        let sample_counts: HashMap<String, u64> = self.event_counts();
 
         // Handle remaining buffers synchronously
         for (key, mut buffer) in self.draw_buffers.into_iter() {
@@ -537,22 +538,14 @@ impl ChainStorage for ZarrAsyncChainStorage {
     }
 
     fn inspect(&self) -> Result<Option<Self::Finalized>> {
-        let mut seen = std::collections::HashSet::new();
         let mut counts = HashMap::new();
-        for (field, dim) in &self.event_dim_of_stat {
-            if seen.insert(dim.as_str()) {
-                let s = self
-                    .stats_buffers
-                    .get(field.as_str())
-                    .map(|b| b.total_pushed())
-                    .unwrap_or(0);
-                let w = self
-                    .warmup_event_counts
-                    .get(dim.as_str())
-                    .copied()
-                    .unwrap_or(0);
-                counts.insert(dim.clone(), (w, s));
-            }
+        for (dim, s) in self.event_counts() {
+            let w = self
+                .warmup_event_counts
+                .get(dim.as_str())
+                .copied()
+                .unwrap_or(0);
+            counts.insert(dim, (w, s));
         }
         Ok(Some(counts))
     }
